@@ -189,7 +189,7 @@ func lstep(st *lstate, in cOp, out cOut) (bool, *lstate) {
 			n.Vers[in.Key] = append(n.Vers[in.Key], lver{out.VerID, in.Body})
 		}
 		return true, n
-	case "get", "head":
+	case "get", "head", "delete-undelete-get":
 		o, ok := st.Objs[in.Key]
 		if !ok {
 			return out.Status == 404, st
@@ -197,7 +197,7 @@ func lstep(st *lstate, in cOp, out cOut) (bool, *lstate) {
 		if out.Status != 200 || out.ETag != drv.ETagOf([]byte(o.Body)) || out.Len != strconv.Itoa(len(o.Body)) {
 			return false, st
 		}
-		if in.Kind == "get" && out.Body != o.Body {
+		if in.Kind != "head" && out.Body != o.Body {
 			return false, st
 		}
 		if o.Meta != "" && out.Meta != o.Meta {
@@ -389,7 +389,7 @@ func c07Scenarios() []c07Scenario {
 			final:   []cOp{{Kind: "get", Key: "k"}, {Kind: "get", Key: "k2"}, {Kind: "list"}}},
 		{name: "versioned-put-put-listver", kinds: []drv.Kind{drv.Mem}, versioned: true,
 			threads: [][]cOp{{{Kind: "put", Key: "k", Body: "A"}}, {{Kind: "put", Key: "k", Body: "BB"}}, {{Kind: "listver"}}},
-			final:   []cOp{{Kind: "listver"}, {Kind: "get", Key: "k"}}},
+			final:   []cOp{{Kind: "listver"}, {Kind: "get", Key: "k"}, {Kind: "delete-undelete-get", Key: "k"}}},
 		{name: "versioned-delete-put-get", kinds: []drv.Kind{drv.Mem}, versioned: true, setupOps: []cOp{{Kind: "put", Key: "k", Body: "A"}},
 			threads: [][]cOp{{{Kind: "delete", Key: "k"}}, {{Kind: "put", Key: "k", Body: "BB"}}, {{Kind: "get", Key: "k"}}},
 			final:   []cOp{{Kind: "get", Key: "k"}, {Kind: "list"}}},
@@ -473,6 +473,14 @@ func (r *c07Runner) exec(op cOp) cOut {
 		resp = r.serve(drv.Req{Method: "GET", Path: b + "/" + op.Key})
 	case "head":
 		resp = r.serve(drv.Req{Method: "HEAD", Path: b + "/" + op.Key})
+	case "delete-undelete-get":
+		// quiescent composite: a plain delete (adds a marker), deletion of exactly that marker, then a read:
+		// the newest remaining version must be served again
+		d := r.serve(drv.Req{Method: "DELETE", Path: b + "/" + op.Key})
+		if id := d.Header.Get("x-amz-version-id"); id != "" {
+			r.serve(drv.Req{Method: "DELETE", Path: b + "/" + op.Key, Query: drv.Q("versionId", id)})
+		}
+		resp = r.serve(drv.Req{Method: "GET", Path: b + "/" + op.Key})
 	case "delete":
 		resp = r.serve(drv.Req{Method: "DELETE", Path: b + "/" + op.Key})
 	case "copy":
@@ -529,7 +537,7 @@ func (r *c07Runner) exec(op cOp) cOut {
 		out.Meta = resp.Header.Get("x-amz-meta-a")
 		out.VerID = resp.Header.Get("x-amz-version-id")
 	}
-	if op.Kind == "get" || op.Kind == "getver" {
+	if op.Kind == "get" || op.Kind == "getver" || op.Kind == "delete-undelete-get" {
 		if resp.Status == 200 {
 			out.Body = string(resp.Body)
 		}
